@@ -46,4 +46,79 @@ theorem pooled_pays_policy (a1 : Bool) (h : Int) (dn : Bool) (vub inc : Int) (pe
   apply Int.le_ediv_of_mul_le hsize
   rw [Int.mul_comm]; omega
 
+/-! ### second batch (translator v2: field writes, several results, effect lists) -/
+
+/-- the translated `Pool.loadPolicy` (mem_pool.go:483): (policyChanged, final mp.feePerByte) is the model's -/
+theorem mempoolLoadPolicy_eq (mp : Mempool.Pool) (feer : Mempool.Feer) :
+    GoFuncs.mempoolLoadPolicy (mp.feePerByte : Int) (feer.feePerByte : Int)
+      = ((Mempool.loadPolicy mp feer).2, (((Mempool.loadPolicy mp feer).1.feePerByte : Nat) : Int)) := by
+  unfold GoFuncs.mempoolLoadPolicy Mempool.loadPolicy
+  by_cases h : feer.feePerByte > mp.feePerByte
+  · have h' : (feer.feePerByte : Int) > (mp.feePerByte : Int) := by omega
+    simp [h, h']
+  · have h' : ¬ (feer.feePerByte : Int) > (mp.feePerByte : Int) := by omega
+    simp [h, h']
+
+/-- `uint256.Int.Cmp` -/
+def cmpI (a b : Nat) : Int := if a < b then -1 else if a = b then 0 else 1
+
+theorem cmpI_neg_iff (a b : Nat) : cmpI a b < 0 ↔ a < b := by
+  unfold cmpI
+  by_cases h1 : a < b
+  · simp [h1]
+  · by_cases h2 : a = b <;> simp [h1, h2]
+
+def errLabel : Option Mempool.Err → String
+  | none => "ok"
+  | some .funds => "ErrInsufficientFunds"
+  | some .conflict => "ErrConflict"
+  | some .dup => "ErrDup"
+  | some .oom => "ErrOOM"
+  | some .cattr => "ErrConflictsAttribute"
+  | some .oracle => "ErrOracleResponse"
+
+/-- the translated `checkBalance` (mem_pool.go:218), fed with the two comparisons the code makes (balance against
+the fee, then against fee + pooled sum): the same error, in the same order, as the model's `checkBalance`; the fee
+is set before the first comparison and the pooled sum added between the two. -/
+theorem mempoolCheckBalance_eq (t : Mempool.Tx) (b : Mempool.Fee) :
+    (GoFuncs.mempoolCheckBalance (cmpI b.balance t.fee) (cmpI b.balance (Mempool.addW t.fee b.feeSum))).2.1
+      = errLabel (Mempool.checkBalance t b).2 ∧
+    (GoFuncs.mempoolCheckBalance (cmpI b.balance t.fee) (cmpI b.balance (Mempool.addW t.fee b.feeSum))).2.2
+      = (if b.balance < t.fee then ["txFee.SetUint64"] else ["txFee.SetUint64", "txFee.Add"]) := by
+  unfold GoFuncs.mempoolCheckBalance Mempool.checkBalance
+  simp only [cmpI_neg_iff]
+  by_cases h1 : b.balance < t.fee
+  · simp [h1, errLabel]
+  · by_cases h2 : b.balance < Mempool.addW t.fee b.feeSum
+    · simp [h1, h2, errLabel]
+    · simp [h1, h2, errLabel]
+
+/-- the translated `Pool.tryAddSendersFee` (mem_pool.go:196), fed with what the model computes for its callees
+(cache hit flag of getPayerFee, error of checkBalance): the same verdict as the model's `tryAddSendersFee`, and
+`feeSum.AddUint64` is executed exactly when no check is requested. -/
+theorem mempoolTryAddSendersFee_eq (mp : Mempool.Pool) (t : Mempool.Tx) (feer : Mempool.Feer) (needCheck : Bool)
+    (a b c d e : Int) :
+    let pf := Mempool.getPayerFee (Mempool.payerOf t) mp.fees feer
+    let r := GoFuncs.mempoolTryAddSendersFee needCheck a b c d pf.2 e (Mempool.checkBalance t pf.1).2.isSome
+    r.1 = (Mempool.tryAddSendersFee mp t feer needCheck).2 ∧
+    r.2.2.2 = (if needCheck then [] else ["payerFee.feeSum.AddUint64"]) := by
+  intro pf r
+  show (GoFuncs.mempoolTryAddSendersFee needCheck a b c d pf.2 e (Mempool.checkBalance t pf.1).2.isSome).1 = _ ∧
+    (GoFuncs.mempoolTryAddSendersFee needCheck a b c d pf.2 e (Mempool.checkBalance t pf.1).2.isSome).2.2.2 = _
+  unfold GoFuncs.mempoolTryAddSendersFee Mempool.tryAddSendersFee
+  show _ ∧ _
+  cases needCheck <;> cases hok : pf.2 <;> cases hcb : Mempool.checkBalance t pf.1 with
+  | mk s eo => cases eo <;> simp_all [pf]
+
+/-- the translated `Pool.containsKey` (mem_pool.go:142) / `Pool.TryGetValue` (:536) are the model's look-ups -/
+theorem mempoolContainsKey_eq (mp : Mempool.Pool) (h : Nat) :
+    GoFuncs.mempoolContainsKey (mp.vmap h).isSome = Mempool.containsKey mp h := by
+  unfold GoFuncs.mempoolContainsKey Mempool.containsKey
+  cases (mp.vmap h).isSome <;> rfl
+
+theorem mempoolTryGetValue_eq (mp : Mempool.Pool) (h : Nat) (code : Int) :
+    (GoFuncs.mempoolTryGetValue code (mp.vmap h).isSome).2 = (Mempool.tryGetValue mp h).isSome := by
+  unfold GoFuncs.mempoolTryGetValue Mempool.tryGetValue
+  cases (mp.vmap h).isSome <;> rfl
+
 end NeoModel.GoFuncsTie
